@@ -57,8 +57,19 @@ class JSONLinesWriter:
             else:
                 # If the first document is not a start document, use the current date
                 self.filename = f"{datetime.today().strftime('%Y-%m-%d')}.jsonl"
-        mode = "a" if (self.dirname / self.filename).exists() else "w"
+        path = self.dirname / self.filename
+        mode = "a" if path.exists() else "w"
 
-        with open(self.dirname / self.filename, mode) as file:
+        # If an existing file does not end with a newline, terminate its last line first so that
+        # the new record starts on a line of its own.
+        needs_newline = False
+        if mode == "a" and path.stat().st_size > 0:
+            with open(path, "rb") as existing:
+                existing.seek(-1, 2)
+                needs_newline = existing.read(1) != b"\n"
+
+        with open(path, mode) as file:
+            if needs_newline:
+                file.write("\n")
             json.dump({"name": name, "doc": doc}, file)
             file.write("\n")
